@@ -1,26 +1,48 @@
 PART = {
   "C18": dict(
-    imports=["Carquet.Properties.C18.Sink"],
+    imports=["Carquet.Properties.C18.Sink", "Carquet.Properties.C18.WriterSink"],
     obligations=["Carquet.Properties.C18." + t for t in
-                 ("C18_ok_implies_all_bytes", "C18_sink_failure_surfaces", "C18_regression_F17")],
+                 ("C18_ok_implies_all_bytes", "C18_sink_failure_surfaces", "C18_regression_F17",
+                  "C18_writer_healthy_stream", "C18_writer_close_ok_implies_file",
+                  "C18_writer_close_ok_file_of_ok_calls", "C18_writer_close_ok_structurally_valid",
+                  "C18_writer_failure_surfaces", "C18_writer_failed_call_poisons_close",
+                  "C18_writer_failed_call_state", "C18_regression_F42")],
     components=["c18"],
-    fidelity={"Impl.Sink": "structural (stdio contract + the writer's checked call sequence)"},
+    fidelity={"Impl.Sink": "structural (stdio contract: delivered / pending / sticky error indicator; a failed push may keep or lose what was not taken)",
+              "Impl.WriterSink": "exact (file_writer.c on a failing stream: which call checks what, header and row group retried, "
+                                 "file_offset / total_byte_size bookkeeping after a failure, ferror and fclose at close)"},
     rule="c18: every proper prefix of 6 (thorough 100) generated files (half of them carrying BYTE_ARRAY values that "
          "look like a file tail) through fread/mmap/buffer open; writer on fopencookie streams failing at every k-th "
-         "byte (step), every k-th operation, once transiently, and on /dev/full, in unbuffered / 64-byte / default "
-         "buffering; abort at every step. distinct = distinct (case, fault point)",
+         "byte (step), every k-th operation, once transiently, and on /dev/full, unbuffered / with a 64-byte user buffer / "
+         "with the default 8 KiB buffer, plus directed histories whose row groups exceed the 8 KiB buffer with faults at the "
+         "block boundaries; abort at every step. distinct = distinct (case, fault point)",
     assumptions=["stdio contract: bytes accepted by fwrite are delivered or pending; a failed push makes the call "
-                 "report failure and sets the sticky error indicator (glibc behaviour observed through fopencookie)"],
-    trusted_base=["fopencookie streams and /dev/full as the failing sinks"],
+                 "report failure and sets the sticky error indicator; what was not taken may stay pending or be lost "
+                 "(glibc behaviour observed through fopencookie: every sink operation is logged and compared)",
+                 "the caller does not clear the error indicator of a borrowed stream (clearerr) between calls"],
+    trusted_base=["fopencookie streams and /dev/full as the failing sinks",
+                  "Driver/Ops/Sink.lean `bench`: the harness's fault schedule and glibc 2.36 buffering written down as an environment "
+                  "(tied on every line by the logged sink operations; the theorems do not depend on it)"],
     text="stream part proved: for every history of writer calls and every buffering policy / failure point "
          "of the underlying FILE* (oracle-quantified stdio contract), OK from close implies every byte of every call reached "
          "the sink in order and every earlier call had returned OK; any failing stream operation makes close return non-OK "
          "(C18_ok_implies_all_bytes, C18_sink_failure_surfaces; the pre-fix close is kept as a kernel-checked counterexample). "
-         "Tie: the real writer on fopencookie sinks failing at every byte offset (step) / every operation / once transiently, "
-         "in three buffering modes, and on /dev/full; abort at every step leaves no file; every proper prefix of generated "
+         "Composed with the writer (Impl.WriterSink = file_writer.c call by call on a stream that may fail, built from Impl.Writer and "
+         "Impl.Sink; on a never-failing stream it IS Impl.Writer: C18_writer_healthy_stream): for every schema, options, history and every "
+         "environment (adaptive oracle: any buffering, any fault schedule, bytes kept or lost after a failure), owned or borrowed stream: "
+         "OK from close implies the sink holds exactly fileOf(history) - the file of the sub-history of the calls that returned OK - with "
+         "the Parquet envelope and tiling footer of C05, nothing pending, no stream operation failed, every call returned its healthy status "
+         "(C18_writer_close_ok_implies_file, _file_of_ok_calls, _structurally_valid); any failed stream operation makes close return "
+         "non-OK (C18_writer_failure_surfaces); after a call that reported FILE_WRITE the caller may carry on or retry, close still does "
+         "not return OK (C18_writer_failed_call_poisons_close; the close without the ferror check = seeded change C05b-2 is the "
+         "kernel-checked counterexample C18_regression_F42: OK with stray bytes and a doubled total_byte_size). "
+         "Tie: the driver RUNS this model in the harness's environment (fault schedule + glibc buffering) and compares, per line, the status "
+         "of every call, the failure flag, the number AND content (hash) of the bytes the sink holds and every sink operation call by call, "
+         "in all three buffering modes, for faults at every byte offset (step) / every operation / once transiently (statuses only for /dev/full); "
+         "abort at every step leaves no file; every proper prefix of generated "
          "files (including ones carrying byte-array values that look like a file tail) is offered to the three open paths. "
          " The open paths and the prefix theorem (C18_prefix_rejected) are the reader part below.",
     level_note="Lean kernel; harness (fopencookie, /dev/full); stdio modelled by its contract, not glibc's algorithm",
-    technique="Lean 4 proof over an oracle-quantified stream contract + fault enumeration on the real writer; exhaustive prefix enumeration per file",
+    technique="Lean 4 proof over an oracle-quantified stream contract composed with the writer model + fault enumeration on the real writer; exhaustive prefix enumeration per file",
   ),
 }
